@@ -84,6 +84,23 @@ def gen_text(rng, seed):
     return text
 
 
+# statements that declare or use the symbols N and M with operands of every kind: all ordered pairs are run
+SYMBOL_STATEMENTS = [
+    "CONSTANT(N, 5)", "CONSTANT(N, M)", "CONSTANT(N, N)", 'CONSTANT(N, "s")', "CONSTANT(N, R1)", "CONSTANT(N, 70000)", "CONSTANT(N, -1)",
+    "CONSTANT(N)", "CONSTANT(N, 1, 2)", "CONSTANT(5, 5)", "CONSTANT(M, N)", "CONSTANT(M, 3)",
+    "DLABEL(N)", "DLABEL(M)", "LABEL(N)", "LABEL(M)", "LABEL(N, M)", "DLABEL()",
+    "DSKIP(N)", "DSKIP(M)", 'DSKIP("s")', "DSKIP(-1)", "DSKIP(70000)", "DSKIP(N, M)", "INTEGER(N)", "INTEGER(M)", "LP_STRING(N)",
+    'LP_STRING("text")', "SET(R1, N)", "SET(R1, M)", "SET(N, 1)", "INC(R1, N)", "SETLO(R1, N)", "BR(N)", "BRR(N)", "BRR(M)", "CALL(R12, N)",
+    "OPCODE(N)", "OPCODE(M)", "print_reg(N)", "print(N)", "ADD(N, M, R1)", "N(1)", "FOO(N)", "#include N", "NOP()",
+]
+
+
+def symbol_pairs():
+    for a in SYMBOL_STATEMENTS:
+        for b in SYMBOL_STATEMENTS:
+            yield a + "\n" + b + "\n"
+
+
 def run_front_end(text, mode, d, limit=8):
     """Returns (problem or None, number of diagnostics, accepted flag)."""
     import hera.parser as P
@@ -127,10 +144,15 @@ def check(seed, n):
     violations, seen = [], set()
     dist = {"accepted": 0, "with_diagnostics": 0, "silent_rejects": 0}
     evals = 0
+    pairs = list(symbol_pairs())
     try:
-        for k in range(n):
-            text = gen_text(rng, seed * 9176 + k)
-            mode = ["", "debug", "assemble", "preprocess"][k % 4]
+        for k in range(n + len(pairs)):
+            if k < n:
+                text = gen_text(rng, seed * 9176 + k)
+            else:
+                text = pairs[k - n]
+                dist["symbol_pairs"] = dist.get("symbol_pairs", 0) + 1
+            mode = ["", "debug", "assemble", "preprocess"][(k + (k // 4 if k >= n else 0) + seed) % 4]
             problem, ndiag, accepted = run_front_end(text, mode, d)
             evals += 1
             seen.add((text, mode))
